@@ -23,6 +23,11 @@
  *     oracle says those threads are supposed to sleep forever); spurious wake-ups are then offered as
  *     alternatives to a virtual STOP transition (choice 0).
  *   - mc_cond_signal with k > 1 waiters is a choice point with k free alternatives (which waiter).
+ *   - reduction (--envpor 1, default): a deviation timeout(t)/spurious(t) only turns t from "asleep" into "wants its mutex
+ *     back"; nothing can observe that before the mutex is free, and between two events on that mutex all points are
+ *     equivalent for it.  It is therefore offered once per such epoch, at the first scheduling point at which the mutex is
+ *     free.  Firing it elsewhere is equivalent (commutes, same costs).  --envpor 0 offers it at every point; mc/selftest.py
+ *     checks that both modes produce the same set of outcomes.
  * Semantics modelled: mutex = (owner, blocked set); condition variable = waiter set, a woken waiter
  * must re-acquire the mutex; mc_cond_timedwait ignores the absolute time (the environment decides).
  * Misuse (unlock by non-owner, wait without the mutex, destroy while in use, use before init of a
@@ -75,7 +80,8 @@
  * How the explorer is invoked (mc_main)
  * ------------------------------------------------------------------------------------------------
  *   drv explore [--pb P] [--db D] [--spurious 0|1] [--horizon N] [--jobs J] [--deadline SEC]
- *               [--maxexec N] -- <harness words>
+ *               [--maxexec N] [--cpu K] [--envpor 0|1] -- <harness words>
+ *       (--cpu K pins the executions of in-flight slot j to CPU K+j: one running thread at a time, so one CPU is best)
  *       iterates the preemption bound p = 0..P (deviation bound D fixed), every execution in a forked
  *       child, J children in flight.  explore(prefix): replay the prefix (enabled-set signature or
  *       range mismatch => status "machinery", exit 2), then choice 0 to the end; for every later
